@@ -97,6 +97,9 @@ RA = "result._messages"
 F8 = ("message_type", "note", "velocity", "control", "program", "numerator", "denominator", "key")        # (copy fills in a missing channel)
 SAME8 = lambda a, b: " and ".join(f"{a}.{f} == {b}.{f}" for f in F8)
 # every event of the relative list is in the absolute list, at the tick given by the waits before it (nothing is lost on conversion)
+# ... and conversely every message of the absolute list is such a copy of some event (or the end marker): nothing is invented
+NOTHING_NEW = lambda out, hi: (f"forall(0, len({out}), lambda p: {out}[p].message_type == MessageType.INTERNAL or exists(0, {hi}, lambda j:"
+                               f" {M}[j].message_type != MessageType.WAIT and {SAME8(out + '[p]', M + '[j]')} and {out}[p].time == wsum({M}, j)))")
 EVENTS_KEPT = lambda out, hi: (f"forall(0, {hi}, lambda j: implies({M}[j].message_type != MessageType.WAIT,"
                                f" exists(0, len({out}), lambda p: {SAME8(out + '[p]', M + '[j]')} and {out}[p].time == wsum({M}, j))))")
 FRESH_LIST = lambda L: f"forall(0, len({L}), lambda j: fresh({L}[j]))"
@@ -108,10 +111,12 @@ contract("RelativeSequence.to_absolute_sequence", params={"self": "ref:RelativeS
                   ("duration_bound", f"forall(0, len({RA}), lambda j: {RA}[j].time <= wsum({M}, len({M})))"),
                   ("duration_reached", f"implies(len({M}) > 0, exists(0, len({RA}), lambda j: {RA}[j].time == wsum({M}, len({M}))))"),
                   ("source_untouched", f"len({M}) == old(len({M})) and forall(0, len({M}), lambda j: {Mj} == old({Mj}))"),
-                  ("no_event_lost", EVENTS_KEPT(RA, f"len({M})"))],
+                  ("no_event_lost", EVENTS_KEPT(RA, f"len({M})")),
+                  ("nothing_invented", NOTHING_NEW(RA, f"len({M})"))],
          asserts=[("no_event_lost_before_the_end_marker", "if not cap_message_exists", EVENTS_KEPT(AS, f"len({M})"))] if False else [],
          loops={"L0": dict(fingerprint="for msg in self._messages", inv=[
              ("events_kept", EVENTS_KEPT(AS, "i")),
+             ("nothing_new", NOTHING_NEW(AS, "i")),
              ("out_fresh", f"not is_none(absolute_sequence) and fresh(absolute_sequence) and fresh({AS}) and {FRESH_LIST(AS)}"),
              ("out_wf", WF_ABS(AS)),
              ("clock", f"current_point_in_time >= 0 and current_point_in_time == wsum({M}, i)"),
